@@ -133,6 +133,17 @@ FAMILY = {
     "filt_unique": "{{ dups|unique|list }}",
     "filt_slice": "{{ items|slice(2)|list }}|{{ items|slice(2, 'F')|list }}",
     "filt_groupby": "{% for k, grp in objs|groupby('p') %}{{ k }}:{{ grp|map(attribute='v')|list }};{% endfor %}",
+    # every parameter of every filter that has an async variant, on data with missing attributes and mixed case
+    "filt_groupby_args": "{% for k, grp in mixed|groupby('p', default='D') %}{{ k }}={{ grp|map(attribute='v')|join('+') }};{% endfor %}|{% for k, grp in mixed|groupby('p', default='D', case_sensitive=true) %}{{ k }}={{ grp|length }};{% endfor %}|{% for g in mixed|groupby('q.r', default='Z') %}{{ g.grouper }}:{{ g.list|length }};{% endfor %}",
+    "filt_unique_args": "{{ words|unique|list }}|{{ words|unique(case_sensitive=true)|list }}|{{ mixed|unique(attribute='p')|map(attribute='v')|list }}",
+    "filt_join_args": "{{ mixed|join(',', attribute='v') }}|{{ words|join }}|{{ words|join('<') }}",
+    "filt_first_args": "{{ words|first }}|{{ mixed|first|attr('v') }}",
+    "filt_slice_args": "{{ items|slice(3)|list }}|{{ items|slice(3, 0)|list }}|{{ items|slice(4)|list }}|{{ items|slice(1)|list }}",
+    "filt_sum_args": "{{ mixed|sum(attribute='v', start=100) }}|{{ nested|sum(start=[]) }}",
+    "filt_map_args": "{{ mixed|map(attribute='p', default='D')|list }}|{{ mixed|map(attribute='q.r', default=none)|list }}|{{ words|map('upper')|list }}|{{ words|map('replace', 'a', 'X')|list }}|{{ items|map('default', 9)|list }}",
+    "filt_select_args": "{{ items|select('gt', 1)|list }}|{{ items|reject('divisibleby', 2)|list }}|{{ words|select('in', ['a', 'B'])|list }}|{{ items|reject|list }}",
+    "filt_selectattr_args": "{{ mixed|selectattr('p')|map(attribute='v')|list }}|{{ mixed|selectattr('p', 'equalto', 'x')|map(attribute='v')|list }}|{{ mixed|rejectattr('p', 'none')|map(attribute='v')|list }}|{{ mixed|rejectattr('p')|map(attribute='v')|list }}",
+    "filt_list_args": "{{ words|list }}|{{ 'abc'|list }}|{{ pairs|list }}",
     "filt_chain": "{{ items|map('string')|select('string')|map('upper')|join('-') }}|{{ items|select('odd')|sum }}|{{ items|map('abs')|first }}",
     "filt_in_for": "{% for x in items|select('odd') %}{{ x }}{{ loop.last }}{% endfor %}|{% for x in items|map('string') %}{{ x }}{% endfor %}",
     "filt_sync_only": "{{ plain|sort|list }}|{{ plain|reverse|list }}|{{ plain|batch(2)|list }}|{{ plain|length }}|{{ plain|min }}|{{ plain|max }}|{{ plain|last }}|{{ plain|random is number }}",
@@ -178,6 +189,18 @@ class Obj:
         return "Obj(%r)" % self.v
 
 
+class Part:
+    """object that lacks the attribute `p` (and `q`) when constructed with None"""
+
+    def __init__(self, v, p):
+        self.v = v
+        if p is not None:
+            self.p = p
+
+    def __repr__(self):
+        return "Part(%r)" % self.v
+
+
 class Node:
     def __init__(self, v, c=()):
         self.v, self.c = v, list(c)
@@ -219,6 +242,8 @@ def make_data(acalls, aiters):
         "items": it([1, 2, 3, -4]), "items2": [5, 6], "empty": it([]), "pairs": it([(1, 2), (3, 4)]),
         "objs": it([Obj(1, "x"), Obj(2, "y"), Obj(3, "x")]), "dups": it([1, 2, 1, 3, 2]),
         "tree": it([Node(1, [Node(2), Node(3, [Node(4)])]), Node(5)]), "plain": [3, 1, 2],
+        "mixed": it([Part(1, None), Part(2, "x"), Part(3, None), Part(4, "X"), Part(5, "y")]),
+        "words": it(["a", "B", "A", "b", "c"]), "nested": it([[1], [2, 3]]),
     }
 
 
